@@ -16,12 +16,13 @@ import (
 
 // Batch is one worker process worth of work.
 type Batch struct {
-	ID     int
-	Seed   uint64
-	Runs   int
-	Race   bool
-	Tier   string
-	NoCold bool
+	ID      int
+	Seed    uint64
+	Runs    int
+	Race    bool
+	Tier    string
+	NoCold  bool
+	ForceOp bool // operation-granular scheduling for every run (retry after a stuck simulation)
 }
 
 // BatchResult is what a worker process reported.
@@ -158,6 +159,12 @@ func batchArgs(bt Batch) []string {
 	a := []string{"-batch", fmt.Sprint(bt.Seed), "-runs", fmt.Sprint(bt.Runs), "-tier", bt.Tier}
 	if bt.NoCold {
 		a = append(a, "-nocold")
+	}
+	if bt.ForceOp {
+		a = append(a, "-forceop")
+	}
+	if bt.Tier == "thorough" {
+		a = append(a, "-watchdog", "180")
 	}
 	return a
 }
